@@ -103,6 +103,22 @@ struct Pod72
   double d[9];
   bool operator==(const Pod72 &o) const { return memcmp(d, o.d, sizeof d) == 0; }
 };
+// element with an interior pointer: trivially destructible, but its copy operations must run when std::vector
+// relocates it (a bitwise relocation leaves `self` pointing into the old block)
+struct Ring
+{
+  int v;
+  const int *self;
+  Ring() : v(0), self(&v) {}
+  explicit Ring(int x) : v(x), self(&v) {}
+  Ring(const Ring &o) : v(o.v), self(&v) {}
+  Ring &operator=(const Ring &o)
+  {
+    v = o.v;
+    return *this;
+  }
+  bool operator==(const Ring &o) const { return v == o.v && self == &v && o.self == &o.v; }
+};
 template <class T>
 struct Mk
 {
@@ -123,6 +139,11 @@ struct Mk<Pod72>
       p.d[i] = v * 10 + i;
     return p;
   }
+};
+template <>
+struct Mk<Ring>
+{
+  static Ring make(int v) { return Ring(v); }
 };
 template <>
 struct Mk<Tracked>
@@ -297,6 +318,7 @@ static void register_properties()
   pbt::property<std::vector<Op>>("aligned_vector_pod12", 500, vops, vector_case<Pod12>);
   pbt::property<std::vector<Op>>("aligned_vector_pod72", 500, vops, vector_case<Pod72>);
   pbt::property<std::vector<Op>>("aligned_vector_tracked", 800, vops, vector_case<Tracked>);
+  pbt::property<std::vector<Op>>("aligned_vector_selfptr", 500, vops, vector_case<Ring>);
   auto ac = gen::tuple(pbt::range<int>(0, 6), pbt::range<long long>(0, 1000000));
   pbt::property<std::tuple<int, long long>>("allocator_contract_char", 200, ac, allocator_contract<char>);
   pbt::property<std::tuple<int, long long>>("allocator_contract_double", 200, ac, allocator_contract<double>);
